@@ -99,6 +99,19 @@ func TestVerifC11Fresh(t *testing.T) {
 	st := vfNewStats(t, "C11")
 	rapid.Check(t, func(rt *rapid.T) {
 		opts := vfGridOpts{KeepOpen: true, OnlySuccess: true}
+		// compliant server behaviours that lengthen the client's flight (client certificate requested) or change the
+		// post-handshake messages (no tickets), and a client that does or does not own a certificate
+		smod, sdesc := vfGenSrvKnobs(rt, "srvcfg")
+		opts.SCfgMod, opts.Note = smod, sdesc
+		if sdesc != "" {
+			st.Class("with-" + sdesc)
+		}
+		if rapid.IntRange(0, 3).Draw(rt, "client_has_certificate") == 0 {
+			opts.CCfgMod = func(c *Config) {
+				c.Certificates = []Certificate{*vfLeaf(vfLeafSpec{KeyType: "ecdsa", Names: []string{"client.c11.test"}})}
+			}
+			st.Class("client-has-certificate")
+		}
 		variant := rapid.IntRange(0, 9).Draw(rt, "variant")
 		vname := "plain"
 		switch {
